@@ -534,12 +534,20 @@ func (w *World) Step(st string) bool {
 			return false
 		}
 		key := w.Key()
-		w.s.Step(t, 0)
-		for w.s.Enabled(t) && !t.AtGateLock() && !(st[0] == 'p' && w.inGate) {
+		data := w.dataKey()
+		for sections := 0; ; sections++ {
 			w.s.Step(t, 0)
+			for w.s.Enabled(t) && !t.AtGateLock() && !(st[0] == 'p' && w.inGate) {
+				w.s.Step(t, 0)
+				w.helpers()
+			}
 			w.helpers()
+			// "m2"/"p2": keep going through critical sections that change nothing (e.g. the merger's "is there
+			// work?" look) until one has changed the collection's or the store's state
+			if st[1] != '2' || !w.s.Enabled(t) || !t.AtGateLock() || (st[0] == 'p' && w.inGate) || sections > 20 || w.dataKey() != data {
+				break
+			}
 		}
-		w.helpers()
 		if t.AtGateLock() {
 			if st[0] == 'm' {
 				w.obsMerger = append(w.obsMerger, shortHash(key))
@@ -691,6 +699,22 @@ func (w *World) dirListing() string {
 
 // Key is the canonical state key used for deduplication (see DESIGN.md section 4, "State key").
 func (w *World) Key() string { return w.key(false) }
+
+// dataKey is the part of the state key that describes moss's data structures (not where its threads stand).
+func (w *World) dataKey() string {
+	var sb strings.Builder
+	if !w.closedColl && w.coll != nil {
+		sb.WriteString(moss.VerifKey(w.coll, false))
+	}
+	if w.cfg.Backing == "map" {
+		fmt.Fprintf(&sb, " LL=%v upd=%d", w.ll, len(w.llUpdates))
+	}
+	if w.store != nil && !w.closedStore {
+		sb.WriteString(" ST=" + moss.VerifStoreKey(w.store, false))
+		sb.WriteString(" DIR=" + w.dirListing())
+	}
+	return sb.String()
+}
 
 func (w *World) key(withRefs bool) string {
 	var sb strings.Builder
